@@ -219,6 +219,20 @@ func runServerSide(o *common.Opts, res *common.Result) {
 	for l := 0; l < 4; l++ {
 		packets = append(packets, mkPacket("udp", fmt.Sprintf("short-datagram-%d", l), bytes.Repeat([]byte{0x01}, l)))
 	}
+	// byte streams that are not well-formed frames: length fields below the header size, beyond the
+	// maximum, and random bytes (the framing layer must reject them and close that connection only)
+	for l := 0; l < 4; l++ {
+		raw := []byte{0, 0, 0, byte(l), 0x0a, 0x0b, 0x0c}
+		packets = append(packets, mkPacket("tcp", fmt.Sprintf("raw-frame-length-%d", l), raw))
+		packets = append(packets, mkPacket("udp", fmt.Sprintf("raw-frame-length-%d", l), raw))
+	}
+	packets = append(packets, mkPacket("tcp", "raw-frame-length-huge", []byte{0x7f, 0xff, 0xff, 0xff, 1, 2, 3}))
+	packets = append(packets, mkPacket("tcp", "raw-frame-length-negative", []byte{0xff, 0xff, 0xff, 0xff, 1, 2, 3}))
+	for i := 0; i < 6; i++ {
+		raw := make([]byte, 1+e.Rng.Intn(40))
+		e.Rng.Read(raw)
+		packets = append(packets, mkPacket("tcp", "raw-random", raw))
+	}
 	packets = append(packets, mkPacket("tcp", "empty-body", frame(nil)))
 	packets = append(packets, mkPacket("udp", "empty-body", frame(nil)))
 
@@ -472,7 +486,14 @@ func runClientSide(o *common.Opts, res *common.Result) {
 	syscall.Kill(ch.cmd.Process.Pid, syscall.SIGTERM)
 }
 
+func limitAddressSpace() {
+	var lim syscall.Rlimit
+	lim.Cur, lim.Max = 6<<30, 6<<30
+	syscall.Setrlimit(syscall.RLIMIT_AS, &lim)
+}
+
 func childServer(port int) {
+	limitAddressSpace()
 	cfg := &srv.Config{Adapters: []srv.Adapter{{Obj: "App.Server.Obj", Proto: "tcp", Host: "127.0.0.1", Port: port}, {Obj: "App.Server.UObj", Proto: "udp", Host: "127.0.0.1", Port: port}}}
 	if err := srv.Start(cfg, echo{}, nil, false); err != nil {
 		fmt.Println("child server start failed:", err)
@@ -482,6 +503,7 @@ func childServer(port int) {
 }
 
 func childClient(port int) {
+	limitAddressSpace()
 	comm := tars.NewCommunicator()
 	p := &prx{}
 	comm.StringToProxy(fmt.Sprintf("App.Server.Obj@tcp -h 127.0.0.1 -p %d -t 1000", port), p)
